@@ -26,9 +26,12 @@ def gen_case(rng):
     nfields = rng.randint(1, 4)
     alphabet = rng.choice([["a", "b"], ["a", "b", "c"], ["x", "y"], ["1", "2", "3"]])
     fields = []
+    may_be_empty = []
     for i in range(nfields):
         rule = ", ".join(alphabet)
-        fields.append({"name": "k%d" % i, "type": "Choice", "empty": False, "length": "", "rule": rule})
+        empty = rng.random() < 0.35
+        may_be_empty.append(empty)
+        fields.append({"name": "k%d" % i, "type": "Choice", "empty": empty, "length": "", "rule": rule})
     checks = []
     nk = rng.randint(1, min(3, nfields))
     keys = sorted(rng.sample(range(nfields), nk))
@@ -49,7 +52,8 @@ def gen_case(rng):
     model = RM.CidModel("delimited", fields, checks)
     rows = []
     for _ in range(rng.randint(0, 10)):
-        row = [rng.choice(alphabet) for _ in range(nfields)]
+        # the empty text is one more value of a field that may be empty (and counts as a key / distinct value)
+        row = [rng.choice(alphabet + [""]) if may_be_empty[k] else rng.choice(alphabet) for k in range(nfields)]
         r = rng.random()
         if r < 0.12:
             row[rng.randrange(nfields)] = "BAD"
